@@ -47,6 +47,7 @@ static void qv_segv(int sig) { if (qv_armed) siglongjmp(qv_jmp, sig); _exit(99);
 static void qv_install(void) {
     struct sigaction sa; memset(&sa, 0, sizeof sa); sa.sa_handler = qv_segv; sa.sa_flags = SA_NODEFER;
     sigaction(SIGSEGV, &sa, NULL); sigaction(SIGBUS, &sa, NULL); sigaction(SIGALRM, &sa, NULL);
+    sigaction(SIGABRT, &sa, NULL); sigaction(SIGFPE, &sa, NULL);   /* failed assert(), division by zero */
 }
 /* usage: if (QV_TRY(seconds)) { ...call...; QV_END; } else { crashed or timed out: qv_sig tells which } */
 static volatile int qv_sig;
